@@ -175,7 +175,8 @@ def handler_for_ok(fn):
     """`_handler_for`: first (class, handler) of self.handlers with isinstance(e, class), else None"""
     body = [s for s in fn.body if not (isinstance(s, ast.Expr) and isinstance(s.value, ast.Constant))]
     want = "for exc_class, handler in self.handlers:\n    if isinstance(e, exc_class):\n        return handler\nreturn None"
-    return '\n'.join(ast.unparse(s) for s in body) == want
+    want2 = "return next((handler for exc_class, handler in self.handlers if isinstance(e, exc_class)), None)"
+    return '\n'.join(ast.unparse(s) for s in body) in (want, want2)
 
 
 def generate(repo):
